@@ -124,3 +124,27 @@ Fixpoint mrun_mismatches_from (i : nat) (ms : list mrun) : list nat :=
   | m :: t => if mrun_ok m then mrun_mismatches_from (S i) t else i :: mrun_mismatches_from (S i) t
   end.
 Definition mrun_mismatches := mrun_mismatches_from 0.
+
+(* A file shared by several mocks: [sf_mocks] = (boilerplate bytes, tag text) of every mock of the
+   file in the order in which they are added; [sf_case] = the file as an ordinary case (its
+   settings must be the ones the model selects).  The model's [shared_prefix] is compared with
+   the observed bytes. *)
+Record sfile := { sf_mocks : list (option str * option str); sf_case : case }.
+
+Definition oeqb (a b : option str) : bool :=
+  match a, b with None, None => true | Some x, Some y => seqb x y | _, _ => false end.
+
+Definition sfile_ok (s : sfile) : bool :=
+  let c := sf_case s in
+  let mocks := map (fun m => {| s_fmt := c_fmt c; s_tmpl := c_tmpl c; s_bp := fst m; s_tags := snd m; s_pkg := c_pkg c |}) (sf_mocks s) in
+  match file_settings mocks, shared_prefix mocks with
+  | Some m, Some p => oeqb (s_bp m) (c_bp c) && oeqb (s_tags m) (c_tags c) && seqb p (c_obs c)
+  | _, _ => false
+  end.
+
+Fixpoint sfile_mismatches_from (i : nat) (l : list sfile) : list nat :=
+  match l with
+  | [] => []
+  | s :: t => if sfile_ok s then sfile_mismatches_from (S i) t else i :: sfile_mismatches_from (S i) t
+  end.
+Definition sfile_mismatches := sfile_mismatches_from 0.
